@@ -225,7 +225,37 @@ def keys_of(sort):
 
 
 def range_ok(sort):
+    """Rel.v's domain of range frames: one ascending non-null integer key"""
     return sort in ("id", "c")
+
+
+def offset_free(fr):
+    return fr[0] == "range" and fr[1] in (None, 0) and fr[2] in (None, 0)
+
+
+def range_frame_ok(sort, fr):
+    """the generalised domain (Model/Window.v segx, Frame.v range_domain): any range frame over ONE integer key, either
+    direction; a range frame without numeric offsets over anything (several keys, NULL keys, no sort)"""
+    if fr[0] != "range":
+        return True
+    return sort in ("id", "c", "-id", "-c") or offset_free(fr)
+
+
+def range_invalid(sort, fr):
+    """F56: a range frame with a numeric offset over several sort keys or none: compiles, no engine accepts the SQL"""
+    return fr[0] == "range" and not offset_free(fr) and not empty_range(fr) and len(SORTS[sort]) != 1
+
+
+RANGE_OFFSET_MSG = "RANGE with offset PRECEDING/FOLLOWING requires one ORDER BY expression"
+
+
+def win_ctor(fr, sort, by=None):
+    """the model term that evaluates the window step: Rel.v's frames on Rel.v's domain, the generalised reading elsewhere"""
+    if fr[0] == "range" and not range_ok(sort):
+        head = "XWinR" if by is None else "XGroupWinR %s" % P.coq_names(by)
+        return "%s %s %s" % (head, coq_oz(fr[1]), coq_oz(fr[2]))
+    head = "XWinF" if by is None else "XGroupWinF %s" % P.coq_names(by)
+    return "%s %s" % (head, frame_coq(fr))
 
 
 class Case:
@@ -256,7 +286,7 @@ def arg_choices(case, avail):
 def valid(case):
     k = case.frame[0]
     if k == "range":
-        if not range_ok(case.sort):
+        if not (range_frame_ok(case.sort, case.frame) or range_invalid(case.sort, case.frame)):
             return False
     if not case.unique:
         if case.placement in ("sort", "sortdirect") or case.post in ("take", "window2", "derive", "groupagg") or case.pre == "take":
@@ -376,7 +406,7 @@ def build(case):
         if keys:
             steps.append(P.Step("sort", "sort %s" % P.prql_keys(keys), "TSort %s" % okeys))
         w = "window %s (sort %s)" % (ftxt, dkeys) if ftxt else "sort %s" % dkeys
-        steps.append(xstep("win", w, "XWinF %s %s %s" % (fcoq, okeys, wcoq), **info))
+        steps.append(xstep("win", w, "%s %s %s" % (win_ctor(case.frame, case.sort), okeys, wcoq), **info))
         sk = [(False, col("x1")), (False, col("id"))]
         steps.append(P.Step("sort", "", "TSort %s" % P.coq_keys(sk), implicit=True))
         steps.append(P.Step("take", "take 3", "TTake None (Some (3))", rng=(None, 3)))
@@ -384,10 +414,10 @@ def build(case):
         if keys and not joined:
             steps.append(P.Step("sort", "sort %s" % P.prql_keys(keys), "TSort %s" % okeys))
         w = "window %s (%s)" % (ftxt, body) if ftxt else body
-        steps.append(xstep("win", w, "XWinF %s %s %s" % (fcoq, okeys, wcoq), **info))
+        steps.append(xstep("win", w, "%s %s %s" % (win_ctor(case.frame, case.sort), okeys, wcoq), **info))
     else:
         inner = ("sort %s | " % P.prql_keys(keys) if keys else "") + ("window %s (%s)" % (ftxt, body) if ftxt else body)
-        steps.append(xstep("group_win", "group {%s} (%s)" % (case.part, inner), "XGroupWinF %s %s %s %s" % (P.coq_names(by), fcoq, okeys, wcoq), **info))
+        steps.append(xstep("group_win", "group {%s} (%s)" % (case.part, inner), "%s %s %s" % (win_ctor(case.frame, case.sort, by), okeys, wcoq), **info))
     steps += post_model
     if pl == "select":
         qual[0] = False
@@ -454,7 +484,7 @@ def build(case):
         steps.append(P.Step("select", "select {%s}" % ", ".join(P.prql_expr(col(c)) for c in fc), "TSelect [%s]" % "; ".join("(None, %s)" % P.coq_expr(col(c)) for c in fc), final=True))
     else:
         fc = None
-    pg = WProgram(steps, False, fc, {"case": case, "wcols": wmeta, "rejected": rejected(case.frame)})
+    pg = WProgram(steps, False, fc, {"case": case, "wcols": wmeta, "rejected": rejected(case.frame), "range_invalid": range_invalid(case.sort, case.frame)})
     return pg
 
 
